@@ -21,7 +21,7 @@ def prepare(ctx):
     """Translator tie (see gen_tie.py): the statements of BaseART.step_fit are regenerated from the source and the
     theorems about the generated definition are re-checked"""
     from .gen_tie import gen_prepare
-    gen_prepare(ctx, ['Control.step_fit_refines', 'Control.step_fit_restores_params'], "BaseART.step_fit (translated control flow) returns the params it was given")
+    gen_prepare(ctx, ['Control.step_fit_refines', 'Control.step_fit_restores_params', 'Control.fit_restores_params', 'Control.predict_spec'], "BaseART.step_fit (translated control flow) returns the params it was given")
 
 
 def run(ctx):
